@@ -436,6 +436,8 @@ META = (META[0] + ' TRAITSORD (the ordering operations of the string order chara
 
 META = (META[0] + ' FIRSTREAD and IT4i over the view searches the string forwards to.', META[1])
 
+META = (META[0] + ' ALIASSTR (an argument that may refer to the string itself is never read after the string has been modified on that path).', META[1])
+
 
 def run(chk, tier):
     db = D.load("checks")
@@ -466,6 +468,9 @@ def run(chk, tier):
         chk.analysis_broken("SLOTS-W: only %d growing size stores found in basic_inplace_string (floor 4)" % chk.rule_instances.get("SLOTS-W", 0))
     same_name_delegation(chk, db)
     compare3_rule(chk, db)
+    from ..rules import extra8 as _X8a
+    if _X8a.alias_string_area(chk, db, STRING) < 30:      # ALIASSTR
+        chk.analysis_broken('ALIASSTR: fewer than 30 members take a string or character pointer that may alias the string (floor 30)')
     from ..rules import exits as _EXF
     if _EXF.check_first_read(chk, D.load('plain')) < 4:      # FIRSTREAD (shared with C08): the searches the string forwards to
         chk.analysis_broken('FIRSTREAD: fewer than 4 searches that scan by themselves (floor 4)')
